@@ -88,6 +88,9 @@ type HistRec struct {
 	Steps    []interface{} `json:"steps"`
 	FinalDB  *TipObs       `json:"final_last_block_db"`
 	FinalErr *string       `json:"final_last_block_db_err"`
+	// restart view: a fresh Chain over the same database, Init + PrepareCache (what Executer.Init does)
+	PrepErr *string `json:"prepare_cache_err"`
+	PrepTip *TipObs `json:"prepare_cache_tip"`
 	CloseErr *string       `json:"close_err"`
 }
 
